@@ -235,9 +235,12 @@ func c06(w *core.World, r *core.Report) {
 	// ---- SLOT-CLEARED-ON-EXPIRY
 	r.Rule("SLOT-CLEARED-ON-EXPIRY", 1, "in every TransactionManager method reachable from the timer callback (Transaction.rollback) that calls RollbackInterface.TransactionRollback, every path from that call to a function exit clears the transaction slot (store nil, or CleanupTransaction) — whatever the rollback returned. Decides: after the timeout the datastore accepts a new transaction even if the automatic rollback failed.")
 	{
-		tcb := w.Func("pkg/datastore/types", "Transaction", "rollback")
-		if tcb != nil {
-			reach := w.CG().Reachable(func(e core.Edge) bool { return e.Kind == "ref" || e.Kind == "dynamic-sig" }, tcb)
+		tcbs := timerCallbacks(w)
+		if len(tcbs) == 0 {
+			w.NoteUnresolved("timer callback (function handed to types.NewTransactionCancelTimer)")
+		}
+		if len(tcbs) > 0 {
+			reach := w.CG().Reachable(func(e core.Edge) bool { return e.Kind == "ref" || e.Kind == "dynamic-sig" }, tcbs...)
 			for _, f := range w.RepoFns {
 				if !reach[f] || f.Signature.Recv() == nil || core.TypeKey(f.Signature.Recv().Type()) != kTM {
 					continue
